@@ -355,7 +355,16 @@ class FnContract:
         for msg, fst in eng.frame_violations:
             eng.emit(fst, '%s/frame/%s' % (fname, msg), t.FALSE, kind='frame', tags=('C17',))
         res.obligations = eng.obls
-        res.loops_unused = [k for k in self.loops if k not in eng.loop_specs_used]
+        # a specification that matched no loop: reported only when the function no longer contains a loop with that text
+        # (a loop that exists but is unreachable under this variant's parameters is not a problem)
+        import ast as _ast
+        texts = set()
+        for n_ in _ast.walk(node):
+            if isinstance(n_, _ast.While):
+                texts.add('while ' + _ast.unparse(n_.test))
+            elif isinstance(n_, _ast.For):
+                texts.add('for %s in %s' % (_ast.unparse(n_.target), _ast.unparse(n_.iter)))
+        res.loops_unused = [k for k in self.loops if k not in eng.loop_specs_used and k not in texts]
         return res
 
 
